@@ -59,6 +59,15 @@ func flight2Parse(
 	}
 	state.RemoteClientHelloSnapshots = snapshots
 
+	// The first ClientHello is in no Finished transcript; what it asked for was
+	// only good enough to decide on the HelloVerifyRequest. Everything that is
+	// negotiated is taken again from this ClientHello, which the Finished
+	// messages cover, so that an extension altered in transit in the first one
+	// cannot steer the handshake.
+	if dtlsAlert, err := negotiateClientHelloExtensions(state, cfg, clientHello); err != nil {
+		return 0, dtlsAlert, err
+	}
+
 	return Flight4, nil, nil
 }
 
